@@ -6,5 +6,6 @@ cd "$(dirname "$0")/.."
 python3 tools/gen_dq.py /repo
 python3 tools/gen_src.py /repo
 python3 tools/gen_logic.py /repo
+python3 tools/gen_bundle.py /repo
 ( cd lean && lake build smoothdrv SmoothProofs SmoothProps 2>&1 | tail -5 )
 python3 tools/prebuild.py || true
